@@ -264,6 +264,27 @@ class Ctx:
             raise InfraError("driver %s not found in %s" % (run, pkg_rel))
         return res
 
+    @staticmethod
+    def stall_sites(res, pkg_hint="conjure/"):
+        """If a go test run was killed by its own -timeout ("panic: test timed out"): the real code hung.  Returns the sorted
+        set of repository functions in which goroutines are blocked on a lock / channel (from the goroutine dump), else None."""
+        out = res["out"]
+        if "panic: test timed out" not in out:
+            return None
+        sites = set()
+        for blk in out.split("\n\n"):
+            # goroutines parked on a mutex / rwmutex (channel waits are idle helpers, not the deadlock)
+            if not re.match(r"goroutine \d+ \[(sync\.(RW)?Mutex|semacquire)", blk):
+                continue
+            for line in blk.splitlines()[1:]:
+                if pkg_hint in line and not line.startswith("\t") and "(" in line:
+                    f = line.rsplit("(", 1)[0].split("/")[-1]
+                    if "Verif" in f or re.search(r"\.v[a-z]+[A-Z]", f):
+                        continue        # driver frames
+                    sites.add(f)
+                    break
+        return sorted(sites) or ["(no repository frame in the dump)"]
+
     # --------------------------------------------------------------- verdicts
     def violation(self, key, what, detail=None):
         """Record a candidate violation observed on the REAL code.  key identifies the specific
